@@ -11,6 +11,7 @@ import (
 
 	"github.com/Factom-Asset-Tokens/factom"
 	"github.com/pegnet/pegnetd/fat/fat2"
+	"github.com/pegnet/pegnetd/node/pegnet"
 )
 
 // ---- pn_bank (C16): one row per height; insert opens it with used/requested = -1; update needs the row ------------------
@@ -267,6 +268,128 @@ func TestConf_IssuanceAndTop100(t *testing.T) {
 	}
 	d.Pegnet.DB.Exec(`DELETE FROM pn_addresses`)
 	t.Logf("CONF-STATS evaluations=%d (seeded trials)", trials)
+}
+
+// ---- history paging (C17): every recorded action is returned exactly once by hash, by address and by height across pages ----
+
+func TestConf_HistoryPaging(t *testing.T) {
+	r := rand.New(rand.NewSource(15))
+	d, done := vfNewNode(t)
+	defer done()
+	trials := 3
+	if confTrials > 100 {
+		trials = 10
+	}
+	for trial := 0; trial < trials; trial++ {
+		for _, tb := range []string{"pn_history_txbatch", "pn_history_transaction", "pn_history_lookup"} {
+			if _, err := d.Pegnet.DB.Exec(`DELETE FROM ` + tb); err != nil {
+				t.Fatal(err)
+			}
+		}
+		tx := confBegin(t, d)
+		h := uint32(300000)
+		type key struct {
+			hash factom.Bytes32
+			idx  int
+		}
+		all := map[key]bool{}
+		byAddr := map[factom.FAAddress]map[key]bool{}
+		nb := 40 + r.Intn(30) // 40..69 batches of 1..3 transactions: more than two pages of 50 at one height
+		for b := 0; b < nb; b++ {
+			batch := confBatch(t, r, 1+r.Intn(3))
+			if err := d.Pegnet.InsertTransactionHistoryTxBatch(tx, b, batch, h); err != nil {
+				t.Fatal(err)
+			}
+			for i, tr := range batch.Transactions {
+				k := key{*batch.Entry.Hash, i}
+				all[k] = true
+				parties := []factom.FAAddress{tr.Input.Address}
+				for _, o := range tr.Transfers {
+					parties = append(parties, o.Address)
+				}
+				for _, a := range parties {
+					if byAddr[a] == nil {
+						byAddr[a] = map[key]bool{}
+					}
+					byAddr[a][k] = true
+				}
+			}
+		}
+		if err := tx.Commit(); err != nil {
+			t.Fatal(err)
+		}
+		page := func(what string, want map[key]bool, fetch func(off int) ([]pegnet.HistoryTransaction, int, error)) {
+			for _, desc := range []bool{false, true} {
+				_ = desc
+			}
+			seen := map[key]int{}
+			total := -1
+			for off := 0; ; off += pegnet.QueryLimit {
+				acts, count, err := fetch(off)
+				if err != nil {
+					if off > 0 && off >= total {
+						break
+					}
+					t.Fatalf("CONF leaf=historySelectHelper(%s) offset=%d: %v", what, off, err)
+				}
+				if total < 0 {
+					total = count
+				}
+				if count != len(want) {
+					t.Fatalf("CONF leaf=historySelectHelper(%s) clause=count_equals_number_of_recorded_actions: %d vs %d", what, count, len(want))
+				}
+				for _, a := range acts {
+					seen[key{*a.Hash, a.TxIndex}]++
+				}
+				if len(acts) < pegnet.QueryLimit {
+					break
+				}
+			}
+			for k := range want {
+				if seen[k] != 1 {
+					t.Fatalf("CONF leaf=historySelectHelper(%s) clause=each_recorded_action_returned_exactly_once_across_pages trial=%d: action (%x,%d) returned %d times (%d actions, %d distinct returned)", what, trial, k.hash[:4], k.idx, seen[k], len(want), len(seen))
+				}
+			}
+			for k := range seen {
+				if !want[k] {
+					t.Fatalf("CONF leaf=historySelectHelper(%s) clause=only_matching_actions_returned", what)
+				}
+			}
+		}
+		for _, desc := range []bool{false, true} {
+			desc := desc
+			page("height", all, func(off int) ([]pegnet.HistoryTransaction, int, error) {
+				return d.Pegnet.SelectTransactionHistoryActionsByHeight(h, pegnet.HistoryQueryOptions{Offset: off, Desc: desc})
+			})
+			for i := 0; i < 3; i++ {
+				a := confAddr(i)
+				if len(byAddr[a]) == 0 {
+					continue
+				}
+				page("address", byAddr[a], func(off int) ([]pegnet.HistoryTransaction, int, error) {
+					return d.Pegnet.SelectTransactionHistoryActionsByAddress(&a, pegnet.HistoryQueryOptions{Offset: off, Desc: desc})
+				})
+			}
+		}
+		// by hash: the actions of one batch
+		for k := range all {
+			want := map[key]bool{}
+			for k2 := range all {
+				if k2.hash == k.hash {
+					want[k2] = true
+				}
+			}
+			hh := k.hash
+			page("entry_hash", want, func(off int) ([]pegnet.HistoryTransaction, int, error) {
+				return d.Pegnet.SelectTransactionHistoryActionsByHash(&hh, pegnet.HistoryQueryOptions{Offset: off})
+			})
+			break
+		}
+	}
+	for _, tb := range []string{"pn_history_txbatch", "pn_history_transaction", "pn_history_lookup"} {
+		d.Pegnet.DB.Exec(`DELETE FROM ` + tb)
+	}
+	t.Logf("CONF-STATS evaluations=%d (seeded histories of 40..69 batches)", trials)
 }
 
 var _ = context.Background
